@@ -917,3 +917,38 @@ def _reorder_case(with_order):
 
 CASES['dd.bdd.reorder!observed[sifting]'] = ('dd.bdd.reorder!observed', _reorder_case(False))
 CASES['dd.bdd.reorder!observed[order]'] = ('dd.bdd.reorder!observed', _reorder_case(True))
+
+
+@case('dd.bdd.BDD.undeclare_vars!observed')
+def c_undeclare(seed):
+    def build(rnd):
+        import dd.bdd as D
+        b = D.BDD()
+        n = rnd.randint(3, 6)
+        names = NAMES[:n]
+        order = list(names)
+        rnd.shuffle(order)
+        for nm in order:
+            b.add_var(nm)
+        used = rnd.sample(names, rnd.randint(0, n - 1))
+        held = []
+        for _ in range(rnd.randint(0, 3)):
+            if not used:
+                break
+            u = b.var(rnd.choice(used))
+            for _ in range(rnd.randint(0, 2)):
+                u = b.apply(rnd.choice(['and', 'or', 'xor']), u, b.var(rnd.choice(used)))
+            if rnd.random() < .7:
+                b.incref(u)
+                held.append(u)
+        if rnd.random() < .6:
+            b.collect_garbage()
+        k = rnd.random()
+        if k < .35:
+            vrs = []
+        else:
+            vrs = rnd.sample(names + ['zz'], rnd.randint(1, 3))
+        return dict(b=b, names=names, held=held, vrs=vrs, rnd=rnd)
+    return Case('dd.bdd.BDD.undeclare_vars!observed', seed, build, lambda e: e['b'].undeclare_vars(*e['vrs']),
+                lambda e: dict(self=None, vrs=with_len(zset_name(e['vrs']), len(set(e['vrs'])))),
+                lambda e: dict(call='undeclare_vars', vrs=e['vrs'], vars_before=dict(e['names'] and {})))
